@@ -611,7 +611,7 @@ pub fn stream_header_staging_4_6() {
     header_staging::<4, 0, 6>()
 }
 
-//@ harness props=C05,C08,C10,C13,C15,C07 tier=quick unwind=10 unwindset=default_read_exact:4,header_staging:34 mem_gb=6 timeout=600 native=no opt_covers=leftover_nonzero
+//@ harness props=C05,C08,C10,C13,C15,C07,C16 tier=quick unwind=10 unwindset=default_read_exact:4,header_staging:34 mem_gb=6 timeout=600 native=no opt_covers=leftover_nonzero
 //@ bound: Stream(UseProvided(symbolic)): write 5 bytes then 5 bytes of a symbolic stream (properties byte 0x5D): header staging, leftover handling
 #[cfg_attr(kani, kani::proof)]
 #[cfg_attr(kani, kani::stub(std::fmt::format, crate::verif_common::stub_format))]
@@ -621,7 +621,7 @@ pub fn stream_header_staging_5_5() {
     header_staging::<5, 0, 5>()
 }
 
-//@ harness props=C05,C08,C10,C13,C15,C07 tier=quick unwind=10 unwindset=default_read_exact:4,header_staging:34 mem_gb=6 timeout=600 native=no opt_covers=leftover_nonzero
+//@ harness props=C05,C08,C10,C13,C15,C07,C16 tier=quick unwind=10 unwindset=default_read_exact:4,header_staging:34 mem_gb=6 timeout=600 native=no opt_covers=leftover_nonzero
 //@ bound: Stream(UseProvided(symbolic)): write 9 bytes then 1 bytes of a symbolic stream (properties byte 0x5D): header staging, leftover handling
 #[cfg_attr(kani, kani::proof)]
 #[cfg_attr(kani, kani::stub(std::fmt::format, crate::verif_common::stub_format))]
@@ -631,7 +631,7 @@ pub fn stream_header_staging_9_1() {
     header_staging::<9, 0, 1>()
 }
 
-//@ harness props=C05,C08,C10,C13,C15,C07 tier=quick unwind=10 unwindset=default_read_exact:4,header_staging:34 mem_gb=6 timeout=600 native=no
+//@ harness props=C05,C08,C10,C13,C15,C07,C16 tier=quick unwind=10 unwindset=default_read_exact:4,header_staging:34 mem_gb=6 timeout=600 native=no
 //@ bound: Stream(UseProvided(symbolic)): write 9 bytes then 9 bytes of a symbolic stream (properties byte 0x5D): header staging, leftover handling
 #[cfg_attr(kani, kani::proof)]
 #[cfg_attr(kani, kani::stub(std::fmt::format, crate::verif_common::stub_format))]
@@ -641,7 +641,7 @@ pub fn stream_header_staging_9_9() {
     header_staging::<9, 0, 9>()
 }
 
-//@ harness props=C05,C08,C10,C13,C15,C07 tier=quick unwind=10 unwindset=default_read_exact:4,header_staging:34 mem_gb=6 timeout=600 native=no
+//@ harness props=C05,C08,C10,C13,C15,C07,C16 tier=quick unwind=10 unwindset=default_read_exact:4,header_staging:34 mem_gb=6 timeout=600 native=no
 //@ bound: Stream(UseProvided(symbolic)): write 6 bytes then 12 bytes of a symbolic stream (properties byte 0x5D): header staging, leftover handling
 #[cfg_attr(kani, kani::proof)]
 #[cfg_attr(kani, kani::stub(std::fmt::format, crate::verif_common::stub_format))]
@@ -661,7 +661,7 @@ pub fn stream_header_staging_2_8() {
     header_staging::<2, 0, 8>()
 }
 
-//@ harness props=C05,C08,C10,C13,C15,C07 tier=quick unwind=10 unwindset=default_read_exact:4,header_staging:34 mem_gb=6 timeout=600 native=no
+//@ harness props=C05,C08,C10,C13,C15,C07,C16 tier=quick unwind=10 unwindset=default_read_exact:4,header_staging:34 mem_gb=6 timeout=600 native=no
 //@ bound: Stream(UseProvided(symbolic)): three pieces 5 + 2 + 6 bytes (two cuts inside header + preamble): staging accumulates, leftover handling
 #[cfg_attr(kani, kani::proof)]
 #[cfg_attr(kani, kani::stub(std::fmt::format, crate::verif_common::stub_format))]
@@ -671,7 +671,7 @@ pub fn stream_header_staging3_5_2_6() {
     header_staging::<5, 2, 6>()
 }
 
-//@ harness props=C05,C08,C10,C13,C15,C07 tier=quick unwind=10 unwindset=default_read_exact:4,header_staging:34 mem_gb=6 timeout=600 native=no
+//@ harness props=C05,C08,C10,C13,C15,C07,C16 tier=quick unwind=10 unwindset=default_read_exact:4,header_staging:34 mem_gb=6 timeout=600 native=no
 //@ bound: Stream(UseProvided(symbolic)): three pieces 6 + 3 + 9 bytes (two cuts inside header + preamble): staging accumulates, leftover handling
 #[cfg_attr(kani, kani::proof)]
 #[cfg_attr(kani, kani::stub(std::fmt::format, crate::verif_common::stub_format))]
@@ -681,7 +681,7 @@ pub fn stream_header_staging3_6_3_9() {
     header_staging::<6, 3, 9>()
 }
 
-//@ harness props=C05,C08,C10,C13,C15,C07 tier=quick unwind=10 unwindset=default_read_exact:4,header_staging:34 mem_gb=6 timeout=600 native=no opt_covers=leftover_nonzero
+//@ harness props=C05,C08,C10,C13,C15,C07,C16 tier=quick unwind=10 unwindset=default_read_exact:4,header_staging:34 mem_gb=6 timeout=600 native=no opt_covers=leftover_nonzero
 //@ bound: Stream(UseProvided(symbolic)): three pieces 5 + 1 + 4 bytes (two cuts inside header + preamble): staging accumulates, leftover handling
 #[cfg_attr(kani, kani::proof)]
 #[cfg_attr(kani, kani::stub(std::fmt::format, crate::verif_common::stub_format))]
